@@ -457,7 +457,7 @@ def c08_view(V, kind, b, out, tag):
     if k2 in ("sr", "rr") and mn + 24 * cnt > L: out.append(f"{tag}accepted although {cnt} report blocks do not fit in {L} bytes")
     if k2 == "bye" and 4 + 4 * cnt > L: out.append(f"{tag}accepted although {cnt} sources do not fit in {L} bytes")
     # header accessors
-    for key, want in (("version", 2), ("type", b[1]), ("count", cnt), ("length", L)):
+    for key, want in (("version", 2), ("type", b[1]), ("count", cnt), ("subtype", cnt), ("length", L)):
         if key in V and V[key] != str(want): out.append(f"{tag}{key}()={V[key]} but the header says {want}")
     if "padding" in V:
         want = pad_str(b[-1]) if b[0] & 0x20 else "none"
@@ -746,6 +746,8 @@ def oracle_C12(ctx, i):
         if r == "ok":
             if V.get("variant") != want_var:
                 out.append(f"{p}type byte {b[1]} dispatched to {V.get('variant')}, expected {want_var}")
+            if V.get("is_unknown") not in (None, "true" if want_var == "unknown" else "false"):
+                out.append(f"{p}is_unknown()={V.get('is_unknown')} for a {want_var} packet")
             if want_var == "unknown":
                 if "data" in V:
                     got, o = parse_slice(V["data"])
@@ -783,7 +785,7 @@ def oracle_C12(ctx, i):
 # ------------------------------------------------------------------------------------------------
 # C13: padding transparency
 
-CONTENT_SKIP = ("res", "version", "type", "length", "padding", "strs")
+CONTENT_SKIP = ("res", "version", "type", "length", "padding", "strs", "is_unknown")
 
 
 def oracle_C13(ctx, i):
